@@ -9,5 +9,3 @@ VIEW ViewNoHist
 INVARIANT Contract
 INVARIANT Partition
 INVARIANT ReplayOnlyUndocumented
-INVARIANT CachesAgree
-INVARIANT ShallowInert
